@@ -174,3 +174,31 @@ bool face_ok(draco::DecoderBuffer *b, draco::Mesh *m, uint32_t num_points) {
 }
 
 }  // namespace verif_control
+
+// ---- MAPENTRY (C03) -----------------------------------------------------
+#include "draco/attributes/point_attribute.h"
+namespace verif_control {
+
+bool mapentry_bad(draco::PointAttribute *att, const std::vector<uint32_t> &ids,
+                  uint32_t n) {
+  att->SetExplicitMapping(n);
+  for (uint32_t i = 0; i < ids.size(); ++i) {
+    att->SetPointMapEntry(draco::PointIndex(ids[i]),
+                          draco::AttributeValueIndex(i));
+  }
+  return true;
+}
+
+bool mapentry_ok(draco::PointAttribute *att, const std::vector<uint32_t> &ids,
+                 uint32_t n) {
+  att->SetExplicitMapping(n);
+  for (uint32_t i = 0; i < ids.size(); ++i) {
+    const draco::PointIndex p(ids[i]);
+    const draco::AttributeValueIndex e(i);
+    if (p >= n || e.value() >= n) return false;
+    att->SetPointMapEntry(p, e);
+  }
+  return true;
+}
+
+}  // namespace verif_control
